@@ -5,6 +5,7 @@
 From Irismod Require Import Queues.Common.
 From Irismod Require Queues.Htlc Queues.ProofsHtlc.
 From Irismod Require Queues.Random Queues.ProofsRandom.
+From Irismod Require Queues.Farm Queues.ProofsFarm.
 
 (** ** HTLC (modules/htlc/abci.go: BeginBlocker; keeper/htlc.go) *)
 Module H.
@@ -139,3 +140,72 @@ Example random_nonvacuous :
   rq s = [] /\ map snd (done s) = [4; 4; 4] /\ oreqs s = [5] /\ map snd (randoms s) = [3; 3].
 Proof. vm_compute. auto. Qed.
 End R.
+
+(** ** farm (modules/farm/abci.go: EndBlocker; keeper/queue.go, pool.go, farmer.go: Refund) *)
+Module F.
+Import Queues.Farm Queues.ProofsFarm.
+
+(** Queue hygiene on every reachable state, after any history of pool creations, adjustments
+    (in any block, including the pool's last one), destructions, stakes and block ends — with
+    any outcome of the amount-dependent checks and any set of failing refunds.  The only
+    hypothesis: the duration AdjustPool computes is not negative (a quotient of non-negative
+    amounts: reward arithmetic, C09/C10).  [QInv]: no duplicate entry; every entry [(h, id)]
+    refers to an existing pool still awaiting its end whose EndHeight is [h], and [h] is not
+    behind the current height; every such pool has its entry; a pool out of the queue ended at
+    a height already reached. *)
+Theorem farm_queue_hygiene :
+  forall (h0 : Z) (ops : list op), Forall op_wf ops -> QInv (run (init h0) ops).
+Proof. exact QInv_reachable. Qed.
+Print Assumptions farm_queue_hygiene.
+
+(** The end-blocker has no aborting path: every error of Refund is logged and dropped. *)
+Theorem blocks_total_farm :
+  forall s f1 f2, snd (step s (EndBlock f1 f2)) <> Abort.
+Proof. exact ProofsFarm.blocks_total_farm. Qed.
+Print Assumptions blocks_total_farm.
+
+(** Exactly once, at the end height (or earlier by DestroyPool): if no refund of an end-blocker
+    fails in updatePool, then a pool is refunded at most once in the whole history, at its final
+    EndHeight, already reached; a queued pool has not passed its EndHeight and has exactly its
+    entry; a pool out of the queue was refunded or had nothing left, and has no entry. *)
+Theorem processed_exactly_once_farm :
+  forall (h0 : Z) (ops : list op), Forall op_clean ops ->
+  let s := run (init h0) ops in
+  NoDup (map fst (refunds s))
+  /\ (forall id h, In (id, h) (refunds s) ->
+        exists p, get id (pools s) = Some p /\ p_closed p = PRefunded /\ p_end p = h /\ h <= height s)
+  /\ (forall id p, get id (pools s) = Some p -> p_closed p = PRefunded -> In (id, p_end p) (refunds s))
+  /\ (forall id p, get id (pools s) = Some p -> p_closed p = POpen ->
+        height s <= p_end p /\ In (p_end p, id) (fq s) /\ forall h, In (h, id) (fq s) -> h = p_end p)
+  /\ (forall id p, get id (pools s) = Some p -> p_closed p <> POpen ->
+        (p_closed p = PRefunded \/ p_closed p = PEmpty) /\ p_end p <= height s /\ forall h, ~ In (h, id) (fq s)).
+Proof. exact ProofsFarm.processed_exactly_once_farm. Qed.
+Print Assumptions processed_exactly_once_farm.
+
+(** The hypothesis on the end-blocker is necessary: Refund dequeues first and the blocker drops
+    its error, so a refund failing in updatePool leaves the pool out of the queue and never
+    refunded.  (Reached on the unfixed tree through AdjustPool in a pool's last block —
+    corpus/C13/farm-adjust-in-last-block-*.jsonl; fixed by 5ce9c76 = farm's 6569134.) *)
+Theorem farm_swallowed_refund_error_loses_pool :
+  exists ops s p, s = run (init 1) ops /\ get 1 (pools s) = Some p /\ p_closed p = PStuck
+                  /\ (forall h, ~ In (h, 1) (fq s)) /\ ~ In 1 (map fst (refunds s)).
+Proof. exact failing_refund_loses_pool. Qed.
+Print Assumptions farm_swallowed_refund_error_loses_pool.
+
+(** non-vacuity: two pools ending together at height 6 (one adjusted to it in its last block),
+    one pool destroyed in the block it falls due, one with nothing left to refund *)
+Example farm_nonvacuous :
+  let ops := [Create 1 5 true 0 Ok; Create 2 3 true 1 Ok; Create 3 2 true 2 Ok; Create 2 2 false 0 Ok;
+              EndBlock [] []; EndBlock [] []; EndBlock [] [];
+              Destroy 4 0 Rej; EndBlock [] [4];
+              Adjust 2 1 1 Ok; Destroy 3 2 Ok; EndBlock [] [];
+              Stake 1 Ok; EndBlock [] []; Stake 1 Ok] in
+  Forall op_clean ops
+  /\ refunds (run (init 1) ops) = [(3, 5); (1, 6); (2, 6)]
+  /\ fq (run (init 1) ops) = []
+  /\ map (fun x => p_closed (snd x)) (pools (run (init 1) ops)) = [PRefunded; PRefunded; PRefunded; PEmpty].
+Proof.
+  cbv zeta. split; [|vm_compute; auto].
+  repeat (apply Forall_cons; [exact I || reflexivity || (simpl; lia)|]). apply Forall_nil.
+Qed.
+End F.
